@@ -9,6 +9,7 @@ import Glb.Model.AuxLogger
 import Glb.Model.JsonHandler
 import Glb.Model.NanoHandler
 import Glb.Model.TextHandler
+import Glb.Spec.Json
 
 namespace Glb.Tie.TrLogger
 open Glb.Go
@@ -191,5 +192,168 @@ theorem ValidLevel_consts (l : Int) :
   rw [ValidLevel_eq]
   simp [Glb.Generated.levelDebug, Glb.Generated.levelInfo, Glb.Generated.levelWarn,
     Glb.Generated.levelError, Glb.Generated.levelFatal]
+
+private theorem int_beq (a b : Int) : (a == b) = decide (a = b) := by
+  by_cases h : a = b <;> simp [h]
+
+/-- the same, as the specification's `Json.validLevel` -/
+theorem ValidLevel_spec (l : Int) :
+    Glb.Tr.Logger.ValidLevel l = .ok (Glb.Json.validLevel l) := by
+  rw [ValidLevel_eq]
+  simp [Glb.Json.validLevel, int_beq, Bool.or_assoc]
+
+/-! ### appendFullLevel / appendShortLevel (colour off)
+
+The models (`JsonHandler.fullLevel`, `TextHandler.fullLevel`, `NanoHandler.shortLevel`) return the
+label; the translated functions return `buf ++ label`.  Payloads differ only for a negative index
+(`l + 2 < 0`, resp. `l < 0`): `…_eq` is the `toOption` form for all inputs, `…_exact` the exact
+equality when the index is non-negative (out-of-range panics included). -/
+
+private theorem map_toOption_congr {α β} {a a' : M α} (f : α → β)
+    (h : a.toOption = a'.toOption) : (a >>= fun x => pure (f x)).toOption = (Except.map f a').toOption := by
+  cases a <;> cases a' <;> simp_all [Except.toOption, Except.map, bind, Except.bind, pure, Except.pure]
+
+private theorem bind_pure_eq_map {α β} (a : M α) (f : α → β) :
+    (a >>= fun x => pure (f x)) = Except.map f a := by
+  cases a <;> rfl
+
+private theorem idxI_fullLevel_toOption (l : Int) :
+    (idxI Glb.Generated.labelList (l + 2)).toOption = (Glb.JsonHandler.fullLevel l).toOption := by
+  unfold idxI Glb.JsonHandler.fullLevel
+  by_cases h : 0 ≤ l + 2
+  · have h' : ¬ l + 2 < 0 := by omega
+    simp [h, h']
+  · have h' : l + 2 < 0 := by omega
+    simp [h, h', Except.toOption]
+
+private theorem idxI_fullLevel_exact (l : Int) (h : 0 ≤ l + 2) :
+    idxI Glb.Generated.labelList (l + 2) = Glb.JsonHandler.fullLevel l := by
+  have h' : ¬ l + 2 < 0 := by omega
+  simp [idxI, Glb.JsonHandler.fullLevel, h, h']
+
+theorem appendFullLevel_eq (buf : Bytes) (l : Int) :
+    (Glb.Tr.Logger.appendFullLevel buf l false).toOption
+      = (Except.map (fun x => buf ++ x) (Glb.JsonHandler.fullLevel l)).toOption := by
+  unfold Glb.Tr.Logger.appendFullLevel
+  simp only [idx_int, Bool.false_eq_true, if_false, bind_assoc, pure_bind]
+  exact map_toOption_congr _ (idxI_fullLevel_toOption l)
+
+theorem appendFullLevel_exact (buf : Bytes) (l : Int) (h : -2 ≤ l) :
+    Glb.Tr.Logger.appendFullLevel buf l false
+      = Except.map (fun x => buf ++ x) (Glb.JsonHandler.fullLevel l) := by
+  unfold Glb.Tr.Logger.appendFullLevel
+  simp only [idx_int, Bool.false_eq_true, if_false, bind_assoc, pure_bind]
+  rw [idxI_fullLevel_exact l (by omega), bind_pure_eq_map]
+
+/-- `TextHandler.fullLevel` has a third payload for the negative index (`.indexRange 0 len`) -/
+theorem fullLevel_text_json (l : Int) :
+    (Glb.TextHandler.fullLevel l).toOption = (Glb.JsonHandler.fullLevel l).toOption ∧
+    (-2 ≤ l → Glb.TextHandler.fullLevel l = Glb.JsonHandler.fullLevel l) := by
+  unfold Glb.TextHandler.fullLevel Glb.JsonHandler.fullLevel
+  by_cases h : l + 2 < 0
+  · exact ⟨by simp [h, Except.toOption], by omega⟩
+  · simp [h]
+
+theorem appendFullLevel_text_eq (buf : Bytes) (l : Int) :
+    (Glb.Tr.Logger.appendFullLevel buf l false).toOption
+      = (Except.map (fun x => buf ++ x) (Glb.TextHandler.fullLevel l)).toOption := by
+  rw [appendFullLevel_eq]
+  have := (fullLevel_text_json l).1
+  cases h1 : Glb.TextHandler.fullLevel l <;> cases h2 : Glb.JsonHandler.fullLevel l <;>
+    simp_all [Except.toOption, Except.map]
+
+theorem appendFullLevel_text_exact (buf : Bytes) (l : Int) (h : -2 ≤ l) :
+    Glb.Tr.Logger.appendFullLevel buf l false
+      = Except.map (fun x => buf ++ x) (Glb.TextHandler.fullLevel l) := by
+  rw [appendFullLevel_exact buf l h, (fullLevel_text_json l).2 h]
+
+theorem appendShortLevel_eq (buf : Bytes) (l : Int) :
+    (Glb.Tr.Logger.appendShortLevel buf l false).toOption
+      = (Except.map (fun x => buf ++ x) (Glb.NanoHandler.shortLevel l)).toOption := by
+  unfold Glb.Tr.Logger.appendShortLevel
+  simp only [idx_int, Bool.false_eq_true, if_false, bind_assoc, pure_bind]
+  refine map_toOption_congr _ ?_
+  unfold idxI Glb.NanoHandler.shortLevel
+  by_cases h : 0 ≤ l
+  · have h' : ¬ l < 0 := by omega
+    simp [h, h']
+  · have h' : l < 0 := by omega
+    simp [h, h', Except.toOption]
+
+theorem appendShortLevel_exact (buf : Bytes) (l : Int) (h : 0 ≤ l) :
+    Glb.Tr.Logger.appendShortLevel buf l false
+      = Except.map (fun x => buf ++ x) (Glb.NanoHandler.shortLevel l) := by
+  unfold Glb.Tr.Logger.appendShortLevel
+  simp only [idx_int, Bool.false_eq_true, if_false, bind_assoc, pure_bind]
+  have h' : ¬ l < 0 := by omega
+  rw [bind_pure_eq_map]
+  simp [idxI, Glb.NanoHandler.shortLevel, h, h']
+
+/-! closed forms for the five valid levels -/
+
+/-- colour off, valid level: the level's name (`Json.levelName`) is appended, no panic -/
+theorem appendFullLevel_valid (buf : Bytes) (l : Int) (h : l = 0 ∨ l = 4 ∨ l = 8 ∨ l = 12 ∨ l = 16) :
+    Glb.Tr.Logger.appendFullLevel buf l false = .ok (buf ++ Glb.Json.levelName l) := by
+  rw [appendFullLevel_exact buf l (by omega)]
+  rcases h with h | h | h | h | h <;> subst h <;> rfl
+
+theorem appendFullLevel_debug (buf : Bytes) :
+    Glb.Tr.Logger.appendFullLevel buf Glb.Generated.levelDebug false
+      = .ok (buf ++ [0x44, 0x45, 0x42, 0x55, 0x47]) :=   -- DEBUG
+  appendFullLevel_valid buf 0 (by omega)
+theorem appendFullLevel_info (buf : Bytes) :
+    Glb.Tr.Logger.appendFullLevel buf Glb.Generated.levelInfo false
+      = .ok (buf ++ [0x49, 0x4E, 0x46, 0x4F]) :=         -- INFO
+  appendFullLevel_valid buf 4 (by omega)
+theorem appendFullLevel_warn (buf : Bytes) :
+    Glb.Tr.Logger.appendFullLevel buf Glb.Generated.levelWarn false
+      = .ok (buf ++ [0x57, 0x41, 0x52, 0x4E]) :=         -- WARN
+  appendFullLevel_valid buf 8 (by omega)
+theorem appendFullLevel_error (buf : Bytes) :
+    Glb.Tr.Logger.appendFullLevel buf Glb.Generated.levelError false
+      = .ok (buf ++ [0x45, 0x52, 0x52, 0x4F, 0x52]) :=   -- ERROR
+  appendFullLevel_valid buf 12 (by omega)
+theorem appendFullLevel_fatal (buf : Bytes) :
+    Glb.Tr.Logger.appendFullLevel buf Glb.Generated.levelFatal false
+      = .ok (buf ++ [0x46, 0x41, 0x54, 0x41, 0x4C]) :=   -- FATAL
+  appendFullLevel_valid buf 16 (by omega)
+
+/-- the short label `[D] [I] [W] [E] [F]` of a valid level -/
+def shortName (l : Int) : Bytes :=
+  [0x5B, (if l = 0 then 0x44 else if l = 4 then 0x49 else if l = 8 then 0x57
+          else if l = 12 then 0x45 else 0x46), 0x5D]
+
+theorem appendShortLevel_valid (buf : Bytes) (l : Int) (h : l = 0 ∨ l = 4 ∨ l = 8 ∨ l = 12 ∨ l = 16) :
+    Glb.Tr.Logger.appendShortLevel buf l false = .ok (buf ++ shortName l) := by
+  rw [appendShortLevel_exact buf l (by omega)]
+  rcases h with h | h | h | h | h <;> subst h <;> rfl
+
+theorem appendShortLevel_debug (buf : Bytes) :
+    Glb.Tr.Logger.appendShortLevel buf Glb.Generated.levelDebug false = .ok (buf ++ [0x5B, 0x44, 0x5D]) :=
+  appendShortLevel_valid buf 0 (by omega)
+theorem appendShortLevel_info (buf : Bytes) :
+    Glb.Tr.Logger.appendShortLevel buf Glb.Generated.levelInfo false = .ok (buf ++ [0x5B, 0x49, 0x5D]) :=
+  appendShortLevel_valid buf 4 (by omega)
+theorem appendShortLevel_warn (buf : Bytes) :
+    Glb.Tr.Logger.appendShortLevel buf Glb.Generated.levelWarn false = .ok (buf ++ [0x5B, 0x57, 0x5D]) :=
+  appendShortLevel_valid buf 8 (by omega)
+theorem appendShortLevel_error (buf : Bytes) :
+    Glb.Tr.Logger.appendShortLevel buf Glb.Generated.levelError false = .ok (buf ++ [0x5B, 0x45, 0x5D]) :=
+  appendShortLevel_valid buf 12 (by omega)
+theorem appendShortLevel_fatal (buf : Bytes) :
+    Glb.Tr.Logger.appendShortLevel buf Glb.Generated.levelFatal false = .ok (buf ++ [0x5B, 0x46, 0x5D]) :=
+  appendShortLevel_valid buf 16 (by omega)
+
+/-- no level outside `-2 … 17` (full) / `0 … 19` (short) survives: the call panics -/
+theorem appendFullLevel_panics (buf : Bytes) (l : Int) (h : l < -2 ∨ 17 < l) :
+    (Glb.Tr.Logger.appendFullLevel buf l false).toOption = none := by
+  rw [appendFullLevel_eq]
+  unfold Glb.JsonHandler.fullLevel
+  by_cases h' : l + 2 < 0
+  · simp [h', Except.map, Except.toOption]
+  · have : Glb.Generated.labelList[(l + 2).toNat]? = none := by
+      have : Glb.Generated.labelList.length = 20 := by decide
+      simp; omega
+    simp [h', Glb.idx?, this, Except.map, Except.toOption]
 
 end Glb.Tie.TrLogger
